@@ -16,6 +16,13 @@ CCMaxDef(e) == \A a \in 1..N : \A b \in 1..N : a # b =>
    IN /\ L \in 0..e.taumax
       /\ \A l \in 0..e.taumax : q(L) >= q(l) - 6000
       /\ RIs(e.obs.maxv[a][b], LagX(e.data, a, L, e.taumax), LagY(e.data, b, e.taumax))
+\* the pure-Python class: lag function k (0 .. 2 taumax) of the pair (a, b) is the Pearson correlation of the central
+\* window of series a (rows taumax+1 .. T-taumax) with series b on the window starting at row k+1
+PureAllDef(e) == (e.obs.pure_all # <<>>) =>
+   LET R == e.T - 2 * e.taumax IN
+   /\ Len(e.obs.pure_all) = 2 * e.taumax + 1
+   /\ \A k \in 0..(2 * e.taumax) : \A a \in 1..N : \A b \in 1..N : a # b =>
+        RIs(e.obs.pure_all[k + 1][a][b], Window(e.data, a, e.taumax + 1, e.taumax + R), Window(e.data, b, k + 1, k + R))
 \* max mode and all mode agree
 MaxIsAll(e) == \A a \in 1..N : \A b \in 1..N : a # b =>
    Close(e.obs.maxv[a][b], e.obs.all[a][b][e.obs.maxl[a][b] + 1], Tol)
@@ -111,6 +118,7 @@ Checks(e) == <<
   <<"MaxIsAll|cross_correlation", MaxIsAll(e)>>, <<"SymDef|symmetrize_by_absmax", SymDef(e)>>,
   <<"Bounded|cross_correlation", Bounded(e)>>, <<"GaussMIDef|mutual_information(gauss)", GaussDef(e)>>,
   <<"ImplementationsAgree|CouplingAnalysisPurePython.cross_correlation", PureAgrees(e)>>,
+  <<"CCDef|CouplingAnalysisPurePython.cross_correlation(all)", PureAllDef(e)>>,
   <<"PearsonDef|TsonisClimateNetwork.correlation", TsonisDef(e)>>,
   <<"SpearmanDef|SpearmanClimateNetwork.similarity_measure", SpearmanDef(e)>>,
   <<"AffineInv|cross_correlation", AffineInv(e)>>, <<"ShiftInv|cross_correlation(offset 2^27)", ShiftInv(e)>>, <<"PermConsistent|cross_correlation", PermConsistent(e)>> >>
